@@ -110,6 +110,17 @@ CLAIMS = {
         note="trusts clang AST/CFG and constant folding; libstdc++ openmode bit values; std::endl writes one byte",
         also=("engine B (boolshape.py)",),
         technique="static analysis: constant-folded open modes, field effect facts, abstract evaluation of the accounting, CFG dominance"),
+    "C16": dict(
+        level="other", engine="engine A (cfg.py)",
+        text="Structural rules over the renderer and the format builder (the rendered text itself is not decided): "
+             "exhaustiveness of the field-kind switch against the enum, a frozen 16-row table field kind -> LogMsg "
+             "getter and default date/time format, single funnel into append() with the field definition, width and "
+             "alignment applied in one place, pending options consumed in addField() on every path, separator guard, "
+             "attribute lookup order by dominance and guard, newest-first search, add/remove pairing of scoped "
+             "attributes, use of the strftime() result.",
+        note="trusts clang AST/CFG; iostream manipulators and strftime behave as documented; the field-kind table is "
+             "frozen in the checker (a new field kind fails the check until the table is extended)",
+        technique="static analysis: switch/enum exhaustiveness, who-reads-what table, CFG must-pass-through and guards"),
     "C20": dict(
         level="other", engine="engine E (effects.py)",
         text="Static lockset/dominance and initialisation-order analysis of every Singleton<T>::instance/reset and "
